@@ -145,7 +145,7 @@ def gen_case(rng, idx, tier):
     case = {
         'mode': rng.choice(['fill', 'autofill']),
         'curve': rng.choice(CURVES),
-        'hard_gas': rng.choice([1040000] * 6 + [520000, 100000, 52000, 5200, 49]),
+        'hard_gas': rng.choice([1040000] * 6 + [520000, 100000, 52000, 5200, 49, 2080000, 10 ** 7]),
         'hard_storage': rng.choice([60000] * 4 + [30000, 1000, 10]),
         'counter': rng.choice([0, 100, 127, 128, 16383, 16384, 2 ** 32, 2 ** 63, 2 ** 64 - 1, 2 ** 64,
                                rng.getrandbits(rng.randrange(1, 65)), rng.getrandbits(rng.randrange(1, 65))]),
@@ -286,7 +286,7 @@ def run(ctx):
         'fees at or above 2^63 mutez (not representable on the node) are outside the theorem and the oracle',
         'explicit counter= / gas_limit= / storage_limit= / fee= arguments (not chosen by the client) are not modelled',
     ]
-    n_groups = 2000 if ctx.tier == 'quick' else 30000
+    n_groups = 2000 if ctx.tier == 'quick' else 100000
     cases = [gen_case(ctx.rng, i, ctx.tier) for i in range(n_groups)]
     # DESIGN's probe configurations first: plain transactions, 1000 gas consumed, n = 1, 2, 5, every curve, both paths
     plain = {'kind': 'transaction', 'destination': _addr([6, 161, 159], 'dest0'), 'amount': 5}
@@ -299,13 +299,21 @@ def run(ctx):
     cases = fixed + cases
     bls_budget = [6 if ctx.tier == 'quick' else 40]
 
-    results, lines, idxs = [], [], []
-    for i, case in enumerate(cases):
+    jobs = []
+    for case in cases:
         real_bls = case['curve'] == 'BL' and bls_budget[0] > 0
-        res = run_real(case, sign_real_bls=real_bls)
         if real_bls:
             bls_budget[0] -= 1
-        results.append(res)
+        jobs.append((case, real_bls))
+    if ctx.tier == 'thorough' and len(jobs) > 5000:
+        import multiprocessing as mp
+        import os
+        with mp.get_context('fork').Pool(min(16, os.cpu_count() or 1)) as pool:   # results keep the case order: seed-deterministic
+            results = pool.starmap(run_real, jobs, chunksize=200)
+    else:
+        results = [run_real(*j) for j in jobs]
+    lines, idxs = [], []
+    for i, (case, res) in enumerate(zip(cases, results)):
         if 'error' not in res and float_guard_ok(case):
             idxs.append(i)
             lines.append(model_line(case, res))
